@@ -162,7 +162,7 @@ class MCMC(Identifiable, Runnable):
         for op in self._operators:
             print(
                 op.id,
-                op._accept / (op._accept + op._reject),
+                op._accept / max(1, op._accept + op._reject),
                 op.smoothed_acceptance_rate(),
                 op._accept + op._reject,
                 op.tuning_parameter,
